@@ -126,6 +126,11 @@ class CTLWorld(object):
       core.components.pop(name, None)
     OF._launch()
     self.nexus = core.openflow
+    for k, v in (getattr(sim, "nexus_options", None) or {}).items():
+      # documented knobs of the nexus (instance attributes, so that a forked
+      # child's setting never outlives it)
+      setattr(self.nexus, k, v)
+      sim.probes["nexus_option_" + k] += 1
     self.core = core
     self.O1 = O1
     self.of = of
